@@ -51,6 +51,10 @@ def make_battery(limit_per_root=7):
     out.append(("CodeActionResponse", {"id": 1, "jsonrpc": "2.0", "result": [{"title": "t", "command": {"title": "t", "command": "c"}}, {"title": "t", "command": "c"}]}))
     out.append(("ServerCapabilities", {"monikerProvider": {"documentSelector": None}, "textDocumentSync": 1, "hoverProvider": {"workDoneProgress": True}}))
     out.append(("Hover", {"contents": ["doc", {"language": "python", "value": "x"}]}))
+    # the bases of the user subclasses observed first by observe(): once these went through a converter, a later
+    # subclass must still get what the first one got
+    out.append(("InitializeParams", {"processId": None, "rootUri": None, "capabilities": {}}))
+    out.append(("Position", {"line": 3, "character": 4}))
     # unknown properties (ignored by every converter except one the user built with forbid_extra_keys=True)
     out.append(("Position", {"line": 1, "character": 2, "zzExtra": 1}))
     out.append(("Hover", {"contents": "doc", "range": {"start": {"line": 0, "character": 0, "zz": None}, "end": {"line": 0, "character": 1}}, "zzExtra": {"a": 1}}))
@@ -65,8 +69,36 @@ def make_battery(limit_per_root=7):
     return out
 
 
+_SUBCLASSES = {}
+
+
+def _user_subclasses(lsp):
+    """Application-defined attrs subclasses of package classes (pygls-style extension).  Observed FIRST, before any
+    package class has been through the converter: what a subclass gets must not depend on whether its base was used."""
+    # fresh classes on every call: a subclass defined after its base has been through a converter must get what a
+    # subclass defined before would get (state remembered on a base class must not leak into later subclasses)
+    @attrs.define
+    class VerifProjectInitializeParams(lsp.InitializeParams):
+        project: typing.Optional[str] = attrs.field(default=None)
+
+    @attrs.define
+    class VerifPosition(lsp.Position):
+        note: typing.Optional[str] = attrs.field(default=None)
+    return VerifProjectInitializeParams, VerifPosition
+
+
 def observe(conv, battery, lsp):
     obs = []
+    try:
+        sub_init, sub_pos = _user_subclasses(lsp)
+        o1 = sub_init(capabilities=lsp.ClientCapabilities(), project="p")
+        obs.append("subclass " + json.dumps(conv.unstructure(o1), sort_keys=True, default=lambda x: getattr(x, "value", repr(x))))
+        o2 = conv.structure({"line": 1, "character": 2, "note": "n"}, sub_pos)
+        obs.append("subclass %s %r %r" % (type(o2).__name__, getattr(o2, "note", "<lost>"), conv.unstructure(o2)))
+        o3 = conv.structure({"capabilities": {}, "processId": None, "rootUri": None, "project": "q"}, sub_init)
+        obs.append("subclass %s %r" % (type(o3).__name__, getattr(o3, "project", "<lost>")))
+    except Exception as e:  # noqa: BLE001
+        obs.append("subclass raises %s" % type(e).__name__)
     for r, j in battery:
         cls = getattr(lsp, r)
         try:
@@ -318,7 +350,7 @@ def _sched_worker(args):
 
 # ---------------------------------------------------------------------------------------- histories
 
-EVENTS = ["F", "U", "Ud", "Uf", "R0", "Rl", "H0", "Hl", "D0", "Dl", "X"]
+EVENTS = ["F", "U", "Ud", "Uf", "Uo", "R0", "Rl", "H0", "Hl", "D0", "Dl", "X"]
 
 
 def _user_hooks(lsp, marker="file:///USER-HOOK"):
@@ -361,6 +393,11 @@ def _history_child(hist, battery_spec):
             elif ev == "Uf":
                 convs.append(converters.get_converter(cattrs.Converter(forbid_extra_keys=True)))
                 kinds.append("forbid")
+            elif ev == "Uo":
+                # omit_if_default=True on the supplied converter: the package pins omit_if_default per attribute, so the
+                # wire format (always-written properties included) is the same as for any other converter
+                convs.append(converters.get_converter(cattrs.Converter(omit_if_default=True)))
+                kinds.append("plain")
             elif ev == "X":
                 # a creation that is interrupted (Ctrl-C, RecursionError ...) while forward references are being resolved:
                 # the 5th call of attrs.resolve_types raises; whatever the package did so far must not poison later creations
@@ -479,7 +516,7 @@ def enabled_histories(maxlen):
         if len(h) == maxlen:
             return
         for ev in EVENTS:
-            if ev in ("F", "U", "Ud", "Uf"):
+            if ev in ("F", "U", "Ud", "Uf", "Uo"):
                 rec(h + [ev], nconv + 1)
             elif ev == "X":
                 if "X" not in h:
@@ -601,7 +638,7 @@ def run(ctx):
         "rule": "schedules: N real threads each doing get_converter()+battery as first use, cooperative scheduler on settrace line events of the "
                 "package modules (functions audited as converter-local run atomically), every schedule with at most the stated number of "
                 "preemptions (iterative context bounding); histories: every enabled sequence over {F fresh, U user converter, Ud user converter "
-                "without detailed validation, Uf user converter with forbid_extra_keys, R re-register on first/last, H user structure hook for Location + "
+                "without detailed validation, Uf user converter with forbid_extra_keys, Uo user converter with omit_if_default, R re-register on first/last, H user structure hook for Location + "
                 "unstructure hook for Range on first/last, D drop first/last and collect, X a creation interrupted by an exception raised from the 5th attrs.resolve_types call} up to the stated length, "
                 "each in a freshly forked process, plus F^100 and three drop-and-recreate histories of 50-60 events; after every event every converter is compared on the battery with the reference "
                 "(user-hooked converters with the hooked reference, incl. below union hooks)",
